@@ -27,6 +27,10 @@ PATTERNS = {
     'CH->CF': (_pat(['C', 'H'], [(0, 0, 0), (1.1, 0, 0)]),
                _pat(['C', 'F'], [(0, 0, 0), (1.35, 0, 0)], charges=[0.25, -0.25], groups=[3, 4],
                     bonds=[(0, 1)], bond_types=[1], tables=True, labels=['pC', 'pF'])),
+    # both patterns live away from the origin (as when they are cut out of a structure)
+    'CH->CF-offset': (_pat(['C', 'H'], [(3.0, 1.0, 2.0), (4.1, 1.0, 2.0)]),
+                      _pat(['C', 'F'], [(3.0, 1.0, 2.0), (4.35, 1.0, 2.0)], charges=[0.25, -0.25], groups=[3, 4],
+                           bonds=[(0, 1)], bond_types=[1], tables=True, labels=['pC', 'pF'])),
     'CH->CF-reversed-bond': (_pat(['C', 'H'], [(0, 0, 0), (1.1, 0, 0)]),
                              _pat(['F', 'C'], [(1.35, 0, 0), (0, 0, 0)], charges=[-0.25, 0.25], groups=[3, 4],
                                   bonds=[(0, 1)], bond_types=[0], tables=True, labels=['pF', 'pC'])),
@@ -38,6 +42,9 @@ PATTERNS = {
     # the replacement's H is the search H moved by 0.05 A (NOT a common atom: coordinates differ) with another charge
     'CH->CH-moved': (_pat(['C', 'H'], [(0, 0, 0), (1.1, 0, 0)]),
                      _pat(['C', 'H'], [(0, 0, 0), (1.15, 0, 0)], charges=[0.0, 0.37], groups=[0, 5])),
+    # search C_a-C_b-H ; replacement keeps C_a and brings N: C_b and H are removed (an atom another match may merely retain)
+    'CCH->CN': (_pat(['C', 'C', 'H'], [(0, 0, 0), (1.5, 0, 0), (2.0, 0.9, 0)]),
+                _pat(['C', 'N'], [(0, 0, 0), (1.4, 0.2, 0)], charges=[0.0, -0.3], groups=[0, 1], bonds=[(0, 1)], bond_types=[0], tables=True, labels=['pC', 'pN'])),
     'H->F': (_pat(['H'], [(0, 0, 0)]), _pat(['F'], [(0, 0, 0)], charges=[-0.1], groups=[0])),
     'CH->nothing': (_pat(['C', 'H'], [(0, 0, 0), (1.1, 0, 0)]), _pat([], [])),
     'CHH->CHH': (_pat(['C', 'H', 'H'], [(0, 0, 0), (1.1, 0, 0), (-0.4, 1.0, 0)]),
